@@ -331,8 +331,15 @@ class ClientWebSocketResponse(Generic[_DecodeText]):
             return False
 
         self._set_closed()
+        # One deadline for sending our Close frame (a peer that does not read
+        # may leave us waiting for the transport to drain) and for the wait
+        # for the peer's.
+        assert self._loop is not None
+        ws_close = self._timeout.ws_close
+        deadline = None if ws_close is None else self._loop.time() + ws_close
         try:
-            await self._writer.close(code, message)
+            async with async_timeout.timeout_at(deadline):
+                await self._writer.close(code, message)
         except asyncio.CancelledError:
             self._close_code = WSCloseCode.ABNORMAL_CLOSURE
             self._response.close()
@@ -350,7 +357,7 @@ class ClientWebSocketResponse(Generic[_DecodeText]):
         try:
             # One deadline for the whole wait: a peer that keeps sending
             # other frames must not keep close() from returning.
-            async with async_timeout.timeout(self._timeout.ws_close):
+            async with async_timeout.timeout_at(deadline):
                 while True:
                     msg = await self._reader.read()
                     if msg.type is WSMsgType.CLOSE:
